@@ -27,6 +27,7 @@ const (
 	schedTick    = 25 * time.Millisecond
 	driverTick   = 100 * time.Millisecond
 	stallTicks   = 50  // consecutive silent driver ticks (nothing emitted, no reply pending) => stalled
+	stallConfirm = 12 * time.Second // ... confirmed by this much more silence (starvation ends, a deadlock does not)
 	watchdog     = 60 * time.Second
 )
 
@@ -178,6 +179,7 @@ type sessPlan struct {
 
 type rig struct {
 	sc     *Scenario
+	slowProgress int // stall rule fired but the session moved again during the confirmation wait
 	syn    *syncer.Syncer
 	hub    *component.ComponentHub
 	local  *localChain
